@@ -152,13 +152,10 @@ impl Parser {
         enclosing_namespace: NamespaceRef,
     ) -> AvroResult<Schema> {
         fn get_schema_ref(parsed: &Schema) -> Schema {
-            match parsed {
-                &Schema::Record(RecordSchema { ref name, .. })
-                | &Schema::Enum(EnumSchema { ref name, .. })
-                | &Schema::Fixed(FixedSchema { ref name, .. }) => {
-                    Schema::Ref { name: name.clone() }
-                }
-                _ => parsed.clone(),
+            // Every named schema is referenced by its name, also a logical type on a fixed
+            match parsed.name() {
+                Some(name) => Schema::Ref { name: name.clone() },
+                None => parsed.clone(),
             }
         }
 
